@@ -14,68 +14,32 @@ from ..util import callee_attr, calls_in_node, cfg_nodes_with_call, lexical_lock
 GB = "gateway_base"
 
 
-PRIM_READS = ("_read", "recv", "read", "recv_into")
-
-
-def _check_exact_read_into(repo: Repo, ob: Obligation, fi: FuncInfo, lp: ast.While, n: str, got: str, reads: list) -> None:
-    """idiom I3: preallocated buffer + progress counter:  got = 0; while got < n: k = recv_into(view[got:], n - got); got += k"""
-    body_nodes = [x for s_ in lp.body for x in ast.walk(s_)]
-    init = [x for x in fi.node.body if isinstance(x, ast.Assign) and unparse(x.targets[0]) == got]
-    if not init or repo.fold_in(init[0].value, fi) != 0:
-        ob.violation(fi, lp, f"the progress counter `{got}` does not start at 0")
-    for rd in reads:
-        if not any(x is rd for x in body_nodes):
-            ob.violation(fi, rd, "a low-level read outside the accumulate loop")
-            continue
-        if callee_attr(rd) not in ("recv_into", "readinto"):
-            raise AnalysisError(f"{fi.short}: counter idiom with `{callee_attr(rd)}` not recognised")
-        dest = rd.args[0] if rd.args else None
-        ok_dest = isinstance(dest, ast.Subscript) and isinstance(dest.slice, ast.Slice) and dest.slice.lower is not None and unparse(dest.slice.lower) == got
-        if not ok_dest:
-            ob.violation(fi, rd, f"every chunk is received into `{norm(dest) if dest is not None else '?'}` instead of the part of the buffer after the {got} bytes already read: "
-                                 "a frame that needs more than one recv() is overwritten from the start (corrupt payload, zero tail)")
-        size = rd.args[1] if len(rd.args) > 1 else None
-        if size is not None and unparse(size) != f"{n} - {got}" and not (isinstance(size, ast.Call) and unparse(size.func) == "min" and any(unparse(a) == f"{n} - {got}" for a in size.args)):
-            ob.violation(fi, rd, f"the low-level read requests `{norm(size)}`, which can exceed the bytes still missing ({n} - {got})")
-        if size is None and not (ok_dest and isinstance(dest, ast.Subscript) and dest.slice.upper is None):
-            pass
-        par = repo.parent(rd)
-        var = unparse(par.targets[0]) if isinstance(par, ast.Assign) and par.value is rd else None
-        if var is None:
-            ob.violation(fi, rd, "the byte count returned by the low-level read is not examined")
-            continue
-        eof = [s_ for s_ in lp.body if isinstance(s_, ast.If) and unparse(s_.test) in (f"not {var}", f"{var} == 0") and isinstance(s_.body[-1], ast.Raise)
-               and unparse(s_.body[-1].exc).split("(")[0] == "EOFError"]
-        if not eof:
-            ob.violation(fi, rd, "a zero-byte read (peer closed) does not raise EOFError")
-        inc = [x for x in body_nodes if isinstance(x, ast.AugAssign) and unparse(x.target) == got and isinstance(x.op, ast.Add) and unparse(x.value) == var]
-        if len(inc) != 1:
-            ob.violation(fi, rd, f"the progress counter is not advanced by the number of bytes just read (`{got} += {var}`)")
-    for x in body_nodes:
-        if isinstance(x, (ast.Break, ast.Return)):
-            ob.violation(fi, x, "the accumulate loop can be left before n bytes arrived")
-    rets = [x for x in repo.own_nodes(fi) if isinstance(x, ast.Return)]
-    if len(rets) != 1:
-        ob.violation(fi, fi.node, "the read does not return exactly once, after the loop")
+PRIM_READS = ("_read", "recv", "read", "recv_into", "readinto")
 
 
 def check_exact_read(repo: Repo, ob: Obligation, fi: FuncInfo) -> None:
     """IO.read(n) must return exactly n bytes or raise EOFError.
 
-    Recognised accumulation idioms (anything else is an analysis error, not a violation):
-      I1  buf = b"" | <first read>;  while len(buf) < n: ...;  buf += chunk;  return buf
-      I2  chunks = []; missing = n;  while missing > 0: ...; chunks.append(chunk); missing -= len(chunk);
-          return b"".join(chunks)
-    Semantic obligations decided per low-level read call r:
-      size     the request is at most the bytes still missing (REMAINING, min(REMAINING, k), or n while nothing was read yet)
-      eof      r's result is tested for emptiness and an empty result raises EOFError *before* it is accumulated
-      order    the result is appended at the end of what was accumulated so far
-    and for the function: the loop runs until nothing is missing, no early exit, the accumulated bytes are returned."""
+    One recogniser for all accumulate-until-n loops, built around a *progress quantity* P (bytes received so far):
+      K1  P = len(BUF)      BUF += chunk                      (BUF bytes, initially empty or a first read)
+      K2  P = GOT           GOT += len(chunk) | += count      (GOT int, initially 0; chunks appended to a list / received into view[GOT:])
+      K3  P = n - MISSING   MISSING -= len(chunk)             (MISSING int, initially n)
+    Decided per low-level read call r (callee resolved through hoisted locals):
+      size   the request is at most n - P  (`n - P`, MISSING, min(.., k), a loop-local alias of these; n itself only before anything was read)
+      eof    an empty result / zero count raises EOFError before it is accumulated
+      accum  the chunk is appended at the end and P advances by exactly its length
+    and for the function: the loop ends only when P >= n (condition or guard-return), the accumulated bytes are returned.
+    An accumulation idiom outside this family is an analysis error (exit 2), never a violation."""
+    from ..util import expand, xtext
     params = [p for p in fi.params() if p != "self"]
     ob.require(len(params) == 1, f"{fi.short}: one size parameter expected")
     n = params[0]
     loops = [x for x in repo.own_nodes(fi) if isinstance(x, ast.While)]
-    reads = [c for c in repo.calls_in(fi) if callee_attr(c) in PRIM_READS and isinstance(c.func, ast.Attribute) and not unparse(c.func).startswith(("struct.", "os."))]
+    reads = []
+    for c in repo.calls_in(fi):
+        f = expand(repo, fi, c.func)
+        if isinstance(f, ast.Attribute) and f.attr in PRIM_READS and not unparse(f).startswith(("struct.", "os.")):
+            reads.append(c)
     ob.site(fi, loops[0] if loops else fi.node, "exact-read loop", size_param=n, low_level_reads=len(reads))
     if not reads:
         raise AnalysisError(f"{fi.short}: no low-level read call recognised")
@@ -83,72 +47,98 @@ def check_exact_read(repo: Repo, ob: Obligation, fi: FuncInfo) -> None:
         ob.violation(fi, fi.node, "IO.read is not a read-until-n loop: a short low-level read would truncate or split a frame", construct="no accumulate loop")
         return
     lp = loops[0]
+    body_nodes = [x for s_ in lp.body for x in ast.walk(s_)]
+    top = [x for x in fi.node.body]
+
+    def init_of(name):
+        for x in top:
+            if isinstance(x, (ast.Assign, ast.AnnAssign)) and unparse(x.targets[0] if isinstance(x, ast.Assign) else x.target) == name and getattr(x, "value", None) is not None:
+                return x.value
+        return None
+
+    # ---- progress model
+    kind = P = acc = None
+    rem: set[str] = set()
+    for x in body_nodes:
+        if isinstance(x, ast.AugAssign) and isinstance(x.target, ast.Name):
+            v = unparse(x.value)
+            iv = init_of(x.target.id)
+            if isinstance(x.op, ast.Sub) and iv is not None and unparse(iv) == n:
+                kind, P = "K3", x.target.id
+                rem = {P}
+            elif isinstance(x.op, ast.Add) and iv is not None and repo.fold_in(iv, fi) == 0:
+                kind, P = "K2", x.target.id
+                rem = {f"{n} - {P}"}
+            elif isinstance(x.op, ast.Add) and iv is not None and (repo.fold_in(iv, fi) in (b"", "") or iv in reads or (isinstance(iv, ast.Call) and iv in reads)):
+                kind, P, acc = "K1", f"len({x.target.id})", x.target.id
+                rem = {f"{n} - len({acc})"}
+        if isinstance(x, ast.Assign) and isinstance(x.targets[0], ast.Name) and isinstance(x.value, ast.BinOp) and isinstance(x.value.op, ast.Add) \
+                and unparse(x.value.left) == x.targets[0].id and init_of(x.targets[0].id) is not None:
+            kind, P, acc = "K1", f"len({x.targets[0].id})", x.targets[0].id
+            rem = {f"{n} - len({acc})"}
+    if kind is None:
+        raise AnalysisError(f"{fi.short}: progress quantity of the accumulate loop not recognised")
+    # loop-local aliases of the remaining-bytes expression
+    for x in body_nodes:
+        if isinstance(x, ast.Assign) and isinstance(x.targets[0], ast.Name) and unparse(x.value) in rem:
+            rem.add(x.targets[0].id)
+
+    # ---- loop condition: runs while P < n
     t = lp.test
-    # -- which idiom
-    buf = missing = chunks = None
-    if isinstance(t, ast.Compare) and len(t.ops) == 1:
-        l, r, op = unparse(t.left), unparse(t.comparators[0]), t.ops[0]
-        if l.startswith("len(") and r == n and isinstance(op, ast.Lt):
-            buf = l[4:-1]
-        elif r.startswith("len(") and l == n and isinstance(op, ast.Gt):
-            buf = r[4:-1]
-        elif isinstance(op, ast.Gt) and repo.fold_in(t.comparators[0], fi) == 0 and isinstance(t.left, ast.Name):
-            missing = l
-        elif isinstance(op, (ast.Lt, ast.LtE, ast.NotEq, ast.GtE, ast.Gt, ast.Eq)) and (l.startswith("len(") or r.startswith("len(")):
+    cond_ok = False
+    tt = unparse(t)
+    if kind == "K3":
+        cond_ok = tt in (f"{P} > 0", P, f"0 < {P}")
+    else:
+        cond_ok = tt in (f"{P} < {n}", f"{n} > {P}")
+    exit_guard = None
+    if isinstance(t, ast.Constant) and bool(t.value):
+        # while True + guard:  if <nothing missing>: return/break
+        for s_ in lp.body:
+            if isinstance(s_, ast.If) and s_.body and isinstance(s_.body[-1], (ast.Return, ast.Break)):
+                g = unparse(s_.test)
+                done = {f"{P} >= {n}", f"{n} <= {P}", f"not {P} < {n}"} | {f"{r} <= 0" for r in rem} | {f"not {r}" for r in rem} | {f"{r} == 0" for r in rem}
+                if g in done:
+                    exit_guard = s_
+                    cond_ok = True
+    if not cond_ok:
+        if isinstance(t, ast.Compare) and (unparse(t.left).startswith("len(") or unparse(t.comparators[0]).startswith("len(") or P in tt):
             ob.violation(fi, lp, f"loop condition `{norm(t)}` does not run until exactly {n} bytes are accumulated: the read may return early or over-read")
             return
-    elif isinstance(t, ast.Name):
-        missing = t.id
-    if buf is None and missing is None and isinstance(t, ast.Compare) and len(t.ops) == 1 and isinstance(t.ops[0], ast.Lt) \
-            and isinstance(t.left, ast.Name) and unparse(t.comparators[0]) == n:
-        return _check_exact_read_into(repo, ob, fi, lp, n, t.left.id, reads)
-    if buf is None and missing is None:
         raise AnalysisError(f"{fi.short}: accumulate loop condition `{norm(t)}` not recognised")
-    body_nodes = [x for s_ in lp.body for x in ast.walk(s_)]
-    if missing is not None:
-        init = [x for x in fi.node.body if isinstance(x, (ast.Assign, ast.AnnAssign)) and unparse(x.targets[0] if isinstance(x, ast.Assign) else x.target) == missing]
-        if not init or unparse(init[0].value) != n:
-            ob.violation(fi, init[0] if init else lp, f"the missing-byte counter is not initialised with {n}")
-        decs = [x for x in body_nodes if isinstance(x, ast.AugAssign) and unparse(x.target) == missing]
-        apps = [x for x in body_nodes if isinstance(x, ast.Call) and callee_attr(x) == "append"]
-        if len(apps) != 1 or len(decs) != 1:
-            raise AnalysisError(f"{fi.short}: chunk-list idiom without exactly one append / one counter update")
-        chunks = unparse(apps[0].func.value)
-        cv = unparse(apps[0].args[0])
-        if not (isinstance(decs[0].op, ast.Sub) and unparse(decs[0].value) == f"len({cv})"):
-            ob.violation(fi, decs[0], f"the missing-byte counter is not decreased by the length of the chunk just read (`{norm(decs[0])}`)")
-        remaining = {missing}
-    else:
-        remaining = {f"{n} - len({buf})"}
-        inits = [x for x in fi.node.body if isinstance(x, (ast.Assign, ast.AnnAssign)) and unparse(x.targets[0] if isinstance(x, ast.Assign) else x.target) == buf]
-        if not inits:
-            ob.violation(fi, fi.node, "accumulation buffer is never initialised")
-        elif repo.fold_in(inits[0].value, fi) not in (b"", "") and not (isinstance(inits[0].value, ast.Call) and inits[0].value in reads):
-            ob.violation(fi, inits[0], "accumulation buffer is initialised with something else than empty bytes or a first read")
 
-    def size_ok(c: ast.Call, first: bool) -> bool:
-        if len(c.args) != 1:
+    def size_ok(c: ast.Call, first: bool, into: bool) -> bool:
+        args = c.args[1:] if into else c.args
+        if into and not args:
+            return True  # bounded by the destination slice (checked separately)
+        if len(args) != 1:
             return False
-        a = c.args[0]
+        a = args[0]
         txt = unparse(a)
-        if txt in remaining:
+        if txt in rem or (first and txt == n):
             return True
-        if first and txt == n:
-            return True  # nothing read yet: everything is missing
-        if isinstance(a, ast.Call) and isinstance(a.func, ast.Name) and a.func.id == "min" and any(unparse(x) in remaining or (first and unparse(x) == n) for x in a.args):
+        if isinstance(a, ast.Call) and isinstance(a.func, ast.Name) and a.func.id == "min" and any(unparse(x) in rem or (first and unparse(x) == n) for x in a.args):
             return True
         return False
 
     for rd in reads:
         in_loop = any(x is rd for x in body_nodes)
         first = not in_loop and rd.lineno < lp.lineno
+        into = expand(repo, fi, rd.func).attr in ("recv_into", "readinto")
         if not in_loop and not first:
             ob.violation(fi, rd, "a low-level read after the accumulate loop")
             continue
-        if not size_ok(rd, first):
-            ob.violation(fi, rd, f"the low-level read requests `{norm(rd.args[0]) if rd.args else ''}`, which can exceed the bytes still missing "
-                                 f"({' / '.join(sorted(remaining))}): bytes of the next frame are consumed and the stream is misaligned")
-        # eof test before accumulation
+        if not size_ok(rd, first, into):
+            shown = rd.args[1] if into and len(rd.args) > 1 else (rd.args[0] if rd.args else None)
+            ob.violation(fi, rd, f"the low-level read requests `{norm(shown) if shown is not None else ''}`, which can exceed the bytes still missing "
+                                 f"({' / '.join(sorted(rem))}): bytes of the next frame are consumed and the stream is misaligned")
+        if into:
+            dest = rd.args[0] if rd.args else None
+            ok_dest = isinstance(dest, ast.Subscript) and isinstance(dest.slice, ast.Slice) and dest.slice.lower is not None and kind == "K2" and unparse(dest.slice.lower) == P
+            if not ok_dest:
+                ob.violation(fi, rd, f"every chunk is received into `{norm(dest) if dest is not None else '?'}` instead of the part of the buffer after the {P} bytes already read: "
+                                     "a frame that needs more than one recv() is overwritten from the start (corrupt payload, zero tail)")
+        # result variable
         par = repo.parent(rd)
         var = None
         if isinstance(par, ast.Assign) and isinstance(par.targets[0], ast.Name) and par.value is rd:
@@ -164,35 +154,48 @@ def check_exact_read(repo: Repo, ob: Obligation, fi: FuncInfo) -> None:
         eof = None
         for s_ in scope[idx + 1:]:
             if isinstance(s_, ast.If) and s_.body and isinstance(s_.body[-1], ast.Raise) and unparse(s_.body[-1].exc).split("(")[0] == "EOFError":
-                tt = unparse(s_.test)
-                if tt == f"not {var}" or tt.startswith(f"not {var} and") or tt == f"len({var}) == 0":
+                g = unparse(s_.test)
+                if g == f"not {var}" or g.startswith(f"not {var} and") or g in (f"len({var}) == 0", f"{var} == 0", f"{var} == b''"):
                     eof = s_
                     break
-            if any(isinstance(x, (ast.AugAssign, ast.Call)) and var in unparse(x) and (isinstance(x, ast.AugAssign) or callee_attr(x) == "append") for x in ast.walk(s_)):
+            if any((isinstance(x, ast.AugAssign) or (isinstance(x, ast.Call) and callee_attr(x) == "append")) and var in unparse(x) for x in ast.walk(s_)):
                 break  # accumulated before any test
         if eof is None:
             ob.violation(fi, rd, f"an empty chunk (peer closed) read into `{var}` does not raise EOFError before it is accumulated")
-        # append order
-        if buf is not None and var != buf:
-            app = [x for x in (body_nodes if in_loop else ast.walk(fi.node)) if (isinstance(x, ast.AugAssign) and isinstance(x.op, ast.Add) and unparse(x.target) == buf and unparse(x.value) == var)
-                   or (isinstance(x, ast.Assign) and unparse(x.targets[0]) == buf and unparse(x.value) == f"{buf} + {var}")]
-            if len(app) != 1:
-                ob.violation(fi, rd, f"chunks are not appended in arrival order (`{buf} += {var}`)")
-        if chunks is not None:
-            if not any(isinstance(x, ast.Call) and callee_attr(x) == "append" and unparse(x.func.value) == chunks and unparse(x.args[0]) == var for x in body_nodes):
-                ob.violation(fi, rd, "the chunk read is not appended to the chunk list")
+        # accumulation and progress update
+        scope_nodes = body_nodes if in_loop else [x for s_ in fi.node.body if s_ is not lp for x in ast.walk(s_)]
+        if kind == "K1":
+            if var != acc:
+                app = [x for x in scope_nodes if (isinstance(x, ast.AugAssign) and isinstance(x.op, ast.Add) and unparse(x.target) == acc and unparse(x.value) == var)
+                       or (isinstance(x, ast.Assign) and unparse(x.targets[0]) == acc and unparse(x.value) == f"{acc} + {var}")]
+                if len(app) != 1:
+                    ob.violation(fi, rd, f"chunks are not appended in arrival order (`{acc} += {var}`)")
+        else:
+            step = f"len({var})" if not into else var
+            upd = [x for x in scope_nodes if isinstance(x, ast.AugAssign) and unparse(x.target) == P and unparse(x.value) == step
+                   and isinstance(x.op, ast.Sub if kind == "K3" else ast.Add)]
+            if len(upd) != 1:
+                ob.violation(fi, rd, f"the progress counter `{P}` is not advanced by the length of the chunk just read")
+            if not into:
+                apps = [x for x in scope_nodes if isinstance(x, ast.Call) and callee_attr(x) == "append" and x.args and unparse(x.args[0]) == var]
+                if len(apps) != 1:
+                    ob.violation(fi, rd, "the chunk read is not appended (once, at the end) to the list of chunks")
+                else:
+                    acc = unparse(apps[0].func.value)
     if not any(any(x is rd for x in body_nodes) for rd in reads):
         ob.violation(fi, lp, "the accumulate loop contains no low-level read")
+    # ---- what is returned
     rets = [x for x in repo.own_nodes(fi) if isinstance(x, ast.Return)]
-    want = buf if buf is not None else None
-    if len(rets) != 1 or any(r in body_nodes for r in rets):
-        ob.violation(fi, rets[0] if rets else fi.node, "the read does not return exactly once, after the loop")
-    elif buf is not None and unparse(rets[0].value) != buf:
-        ob.violation(fi, rets[0], "the read does not return the accumulated buffer")
-    elif chunks is not None and unparse(rets[0].value).replace('"', "'") not in (f"b''.join({chunks})", f"bytes().join({chunks})"):
-        ob.violation(fi, rets[0], "the read does not return the chunks joined in arrival order")
+    allowed_in_loop = exit_guard is not None
+    if len(rets) != 1 or (any(r in body_nodes for r in rets) and not allowed_in_loop):
+        ob.violation(fi, rets[0] if rets else fi.node, "the read does not return exactly once, when nothing is missing any more")
+    elif acc is not None:
+        rv = xtext(repo, fi, rets[0].value).replace('"', "'")
+        good = {acc, f"b''.join({acc})", f"bytes().join({acc})", f"bytes({acc})"}
+        if unparse(rets[0].value) not in good and rv not in good and not any(rv == f"bytes({xtext(repo, fi, ast.parse(acc, mode='eval').body)})" for _ in [0]):
+            ob.violation(fi, rets[0], "the read does not return the accumulated bytes in arrival order")
     for x in body_nodes:
-        if isinstance(x, (ast.Break, ast.Return)):
+        if isinstance(x, (ast.Break, ast.Return)) and not (exit_guard is not None and any(x is y for y in ast.walk(exit_guard))):
             ob.violation(fi, x, "the accumulate loop can be left before n bytes arrived")
 
 
@@ -231,7 +234,8 @@ def check(ctx: Ctx) -> None:
         if fp != ref.HEADER_FORMAT:
             ob.violation(f_to, packs[0], f"header format {fp!r} is not the wire format {ref.HEADER_FORMAT!r} (type 1, channel 4, payload length 4, big-endian)")
         want = [f"self.{fields[0]}", f"self.{fields[1]}", f"len(self.{fields[2]})"] if len(fields) == 3 else []
-        have = [unparse(a) for a in pack_args]
+        from ..util import xtext as _xt, expand as _ex
+        have = [_xt(repo, f_to, a) for a in pack_args]
         if have != want:
             ob.violation(f_to, packs[0], f"header fields packed as {have}, expected {want}")
         reads = [c for c in repo.calls_in(f_from) if callee_attr(c) == "read"]
@@ -246,10 +250,11 @@ def check(ctx: Ctx) -> None:
             a, b, c = [unparse(x) for x in asg.targets[0].elts]
             ctor = [x for x in repo.calls_in(f_from) if isinstance(x.func, ast.Name) and x.func.id == "Message"]
             ob.require(len(ctor) == 1, "from_io: Message(...) construction not found")
-            args = [unparse(x) for x in ctor[0].args]
+            xargs = [_ex(repo, f_from, x) for x in ctor[0].args]
+            args = [unparse(x) for x in xargs]
             ob.site(f_from, ctor[0], "unpacked fields reach Message() in their roles", args=args)
-            if len(args) != 3 or args[0] != a or args[1] != b or not (isinstance(ctor[0].args[2], ast.Call) and callee_attr(ctor[0].args[2]) == "read"
-                                                                     and unparse(ctor[0].args[2].args[0]) == c):
+            if len(args) != 3 or args[0] != a or args[1] != b or not (isinstance(xargs[2], ast.Call) and callee_attr(xargs[2]) == "read"
+                                                                     and unparse(xargs[2].args[0]) == c):
                 ob.violation(f_from, ctor[0], f"unpacked header fields ({a}, {b}, {c}) do not reach Message(msgcode, channelid, read(length)) in their roles")
         else:
             ob.violation(f_from, unpacks[0], "header is not unpacked into three fields")
